@@ -553,6 +553,11 @@ pub fn finish(
     for (k, v) in extra {
         coverage[k] = v;
     }
+    if let Ok(w) = std::env::var("VERIF_SCOPE_WARNING") {
+        // the driver found unsafe code or synchronisation primitives the hooks do not wrap
+        coverage["scope_warning"] = J::String(w.chars().take(600).collect());
+        println!("SCOPE-WARNING: /repo/src now contains constructs outside the hooks' view: {}", w.lines().next().unwrap_or(""));
+    }
     let ev = json!({
         "property_id": id,
         "tier": tier.name(),
